@@ -14,9 +14,18 @@ func VerifC01ItemFields() {
 	// exactly one field per run carries the hostile string
 	fields := []string{"name", "content", "att", "h", "l", "q", "user", "bio", "type", "atturl"}
 	hot := fields[verifrt.Choice("field", len(fields))]
+	// the hostile string: arbitrary scalars, or a control character written in
+	// one of the encodings some layer might decode (character references,
+	// percent-escapes, JSON escapes that arrive as literal text): where they
+	// are not decoded they are harmless, where they are the result is a control
+	encoded := []string{"", "&#27;[2J", "&#x9b;31m", "&#155;&#7;", "%1B[2J%9B", "\\u001b[2J\\x1b", "&amp;#27;[2J", "&NewLine;&#0;&#x1B;"}
+	enc := verifrt.Choice("encoded", len(encoded))
 	raw := func(name string) string {
 		if name != hot {
 			return ""
+		}
+		if enc > 0 {
+			return encoded[enc]
 		}
 		s := ""
 		for i := 0; i < n; i++ {
@@ -24,7 +33,13 @@ func VerifC01ItemFields() {
 		}
 		return s
 	}
-	width := verifrt.Int("width", 1, verifrt.Param("maxw", 12))
+	var width int
+	if enc > 0 {
+		// (concrete content: two widths instead of a symbolic one)
+		width = []int{1, 8}[verifrt.Choice("encwidth", 2)]
+	} else {
+		width = verifrt.Int("width", 1, verifrt.Param("maxw", 12))
+	}
 	var item Tangible
 	kind := map[string]int{"name": 0, "content": 0, "att": 0, "h": 1, "l": 1, "q": 1, "user": 2, "bio": 2, "type": 3, "atturl": 4}[hot]
 	if hot == "name" && verifrt.Choice("onactor", 2) == 1 {
